@@ -3,3 +3,10 @@ import sys
 # the engine itself manipulates integers beyond CPython's default int<->str conversion limit (finding C01: 10**4300)
 if hasattr(sys, "set_int_max_str_digits"):
     sys.set_int_max_str_digits(20000)
+
+try:
+    import z3 as _z3
+
+    _z3.set_param("warning", False)   # tactics that rewrite seq.nth into if-then-else inside patterns only drop the pattern; nothing to report
+except Exception:  # pragma: no cover
+    pass
